@@ -3,7 +3,10 @@ from . import common as C, gen_int as G, oracles as O
 
 LEAN_MODULE = "Urandom.Props.C11"
 RULE = ("requests: Float01 (f32, f64, Random::float01) for all 65 leading-zero classes of the first word x mantissa words {0, !0, random}; "
-        "next_f32/next_f64 of every generator through the word/std streams; non-trivial = all; distinct = distinct request line")
+        "next_f32/next_f64 of every generator through the word/std streams; "
+        "extra (implementation only, exact counting by interval search with real calls): the number of first words Float01 maps into each binade [2^-(k+1), 2^-k) must be exactly 2^(63-k) "
+        "for every k < 64 (all words covered: the step function first word -> binade is resolved completely), the mantissa field must take probed values for exactly 2^12 (f64: 64-bit second word) / 2^9 (f32: 32-bit second word) words each, "
+        "and next_f64 / next_f32 through the standard distribution must hit probed values of [1,2) by equally many words; non-trivial = all; distinct = distinct request line")
 ASSUMPTIONS = []
 
 
@@ -46,3 +49,78 @@ def oracle(req, impl, build):
                 if not (0x3F800000 <= v < 0x40000000 or 0x3FF0000000000000 <= v < 0x4000000000000000):
                     return "unit float outside [1,2)"
     return None
+
+
+def extra(binary, build, tier, rng):
+    """Float01: exact binade and mantissa preimage counts on the implementation; next_f32/f64 value preimage counts."""
+    from .preimage_oracle import Prober, steps, validate_steps, count_values
+    from .oracles import parse_ok
+    B = 1 << 64
+    calls = 0
+    for w, via in ((64, "sample"), (64, "float01"), (32, "sample")):
+        mb, bias = (52, 1023) if w == 64 else (23, 127)
+        for m2 in (0, B - 1, rng.u64()):
+            mk = lambda x, m2=m2: "f01 w=%d via=%s n=1 words=%d,%d" % (w, via, x, m2)
+            def parse(res, mb=mb, bias=bias):
+                f = parse_ok(res)
+                if f is None:
+                    return None
+                v = int(f[0])
+                return bias - 1 - (v >> mb)          # k: the value lies in [2^-(k+1), 2^-k)
+            p = Prober(binary, mk, parse)
+            runs = steps(p, 0, B - 1)
+            calls += p.calls
+            if runs is None:
+                yield {"kind": "oracle", "build": build, "request": mk(0), "impl": "", "model": "", "oracle": "Float01: the binade is not a step function of the first word (more than 200 runs)"}
+                continue
+            bad = validate_steps(p, runs, rng)
+            if bad:
+                yield {"kind": "note", "text": "Float01 w=%d: binade runs not contiguous at word %d - binade count inconclusive" % (w, bad[0])}
+                continue
+            cnt = {}
+            for first, last, k in runs:
+                cnt[k] = cnt.get(k, 0) + last - first + 1
+            for k in range(64):
+                if cnt.get(k, 0) != 1 << (63 - k):
+                    wit = next((first for first, last, kk in runs if kk == k), 0)
+                    extra_words = [(first, last) for first, last, kk in runs if kk == k]
+                    yield {"kind": "oracle", "build": build, "request": mk(wit), "impl": "binade %d <- first words %s" % (k, extra_words[:4]), "model": "",
+                           "oracle": "Float01 (w=%d via=%s): binade [2^-%d, 2^-%d) receives %d of the 2^64 first words, not 2^%d = %d" % (w, via, k + 1, k, cnt.get(k, 0), 63 - k, 1 << (63 - k))}
+                    break
+        # mantissa: a fixed first word, the mantissa field as a function of the second word
+        for w1 in (0, 1 << 63, rng.u64()):
+            mk = lambda x, w1=w1: "f01 w=%d via=%s n=1 words=%d,%d" % (w, via, w1, x)
+            def parse(res, mb=mb):
+                f = parse_ok(res)
+                return None if f is None else int(f[0]) & ((1 << mb) - 1)
+            p = Prober(binary, mk, parse)
+            r = 1 << mb
+            vals = [0, 1, 2, r // 2 - 1, r // 2, r - 2, r - 1] + [rng.below(r) for _ in range(4)]
+            L = 64 if w == 64 else 32        # next_f32 consumes a 32-bit word (the scripted source hands out the low half of its word)
+            msg, info = count_values(p, r, L, vals, rng, "Float01 mantissa (w=%d)" % w)
+            calls += p.calls
+            if msg == "inconclusive":
+                yield {"kind": "note", "text": "Float01 w=%d mantissa preimage count inconclusive: %s" % (w, info)}
+            elif msg:
+                yield {"kind": "oracle", "build": build, "request": mk(info[min(info)][0]), "impl": str(info)[:400], "model": "", "oracle": msg}
+            elif any(n != (1 << L) // r for (_, _, n) in info.values()):
+                c = next(c for c, (_, _, n) in info.items() if n != (1 << L) // r)
+                yield {"kind": "oracle", "build": build, "request": mk(info[c][0]), "impl": str(info[c]), "model": "",
+                       "oracle": "Float01 (w=%d): mantissa value %d is produced by %d second words, not 2^%d (not a full-width mantissa)" % (w, c, info[c][2], L - mb)}
+    # next_f64 / next_f32 (standard distribution over a scripted word source): probed values of [1,2) are hit by equally many words
+    prof = "release" if build == "release" else "debug"
+    for ty, mb, one in (("f64", 52, 0x3FF0000000000000), ("f32", 23, 0x3F800000)):
+        mk = lambda x, ty=ty: "std ty=%s n=1 profile=%s words=%d" % (ty, prof, x)
+        def parse(res, one=one):
+            f = parse_ok(res)
+            return None if f is None else int(f[0]) - one
+        p = Prober(binary, mk, parse)
+        r = 1 << mb
+        vals = [0, 1, r // 2, r - 2, r - 1] + [rng.below(r) for _ in range(4)]
+        msg, info = count_values(p, r, 64 if ty == "f64" else 32, vals, rng, "next_%s" % ty)
+        calls += p.calls
+        if msg == "inconclusive":
+            yield {"kind": "note", "text": "next_%s preimage count inconclusive: %s" % (ty, info)}
+        elif msg:
+            yield {"kind": "oracle", "build": build, "request": mk(info[min(info)][0]), "impl": str(info)[:400], "model": "", "oracle": msg}
+    yield {"kind": "count", "what": "float-preimage-probes", "n": calls}
